@@ -583,6 +583,13 @@ class Run:
             self.v("C13", "C13:second-sync-not-idempotent",
                    f"repeating the sync {'raised ' + type(exc2).__name__ if exc2 is not None else 'changed'} "
                    f"{self.sdiff(snap_d1, snap_d2)}")
+        # a later sync in the same process, after a source file was rewritten in place with the same
+        # size and the same mtime: deep=True still has to notice (C15: "compared by content ...
+        # regardless of size and timestamps"; a comparison remembered from the earlier call is stale)
+        if o["deep"] and self.prop == "C15" and exc2 is None and not self.V:
+            self.second_round(sp_, dp_, o)
+            if any(v["property"] == self.prop for v in self.V):
+                return
         # parallel == sequential (C15)
         if seq_copy is not None:
             self.probe("parallel")
@@ -635,6 +642,60 @@ class Run:
         if any(r.endswith("~") for r in snapshot(dp_)):
             self.probe("precrash_left_backup_file")
         return True
+
+    def second_round(self, sp_, dp_, o):
+        ms, md = project_model(sp_), project_model(dp_)
+        target = None
+        for jid in sorted(set(ms["jobs"]) & set(md["jobs"])):
+            for rel in sorted(ms["jobs"][jid]["files"]):
+                f, g = ms["jobs"][jid]["files"][rel], md["jobs"][jid]["files"].get(rel)
+                if rel == DOC_FILE or g is None or f[0] != g[0] or not f[0] or ("/" in rel and not o["recursive"]):
+                    continue
+                base = rel.rsplit("/", 1)[-1]
+                pats = ([o["exclude"]] if isinstance(o["exclude"], str) else list(o["exclude"] or []))
+                if any(sync_ref.excluded(part, pats) for part in rel.split("/")):
+                    continue
+                target = (jid, rel, f)
+                break
+            if target:
+                break
+        if target is None:
+            return
+        jid, rel, f = target
+        if self.sc["entry"] in ("Job.sync", "sync_jobs") and jid != self.sel_id(self.sc["pair"]):
+            return
+        if o["selection"] is not None and self.sc["entry"] in ("Project.sync", "sync_projects") and \
+                jid not in {self.sel_id(k) for k in o["selection"]}:
+            return
+        full = os.path.join(sp_, "workspace", jid, rel)
+        with self.world.observing():
+            if os.path.islink(full):
+                return
+            st = O.stat(full)
+            new = bytes((b ^ 1) for b in f[0])   # same length, every byte different
+            with O.io_open(full, "wb") as fh:
+                fh.write(new)
+            O.utime(full, ns=(st.st_mtime_ns, st.st_mtime_ns))
+        self.probe("second_round_in_place_change")
+        ms2, md2 = project_model(sp_), project_model(dp_)
+        exp, conflicts = self.expected(ms2, md2)
+        want = sorted({c[0] for c in conflicts})
+        exc = self.call(sp_, dp_, o)
+        got = type(exc).__name__ if exc is not None else None
+        after = project_model(dp_)
+        data = after["jobs"][jid]["files"].get(rel, (None,))[0]
+        changed_dst = data == new
+        if want == ["FileSyncConflict"] and got is None and not changed_dst:
+            self.v("C15", "C15:deep-not-honoured", f"second sync in the same process: {jid[:8]}/{rel} was rewritten "
+                   f"in the source with the same size and mtime; deep=True did not raise FileSyncConflict",
+                   "C15:deep-not-honoured:after-in-place-change")
+        elif not want and got is None:
+            e = exp["jobs"][jid]["files"].get(rel, (None,))[0]
+            if e != data:
+                self.v("C15", "C15:deep-not-honoured", f"second sync in the same process: {jid[:8]}/{rel} was "
+                       f"rewritten in the source with the same size and mtime; deep=True with strategy "
+                       f"{o['strategy']} left the destination at {str(data)[:24]!r}, the reference expects "
+                       f"{str(e)[:24]!r}", "C15:deep-not-honoured:after-in-place-change")
 
     def dry_kind(self, a, b):
         added = [r for r in b if r not in a]
